@@ -34,7 +34,7 @@ SETTINGS = 'year: 2024\ndata_sources:\n  - name: Bank\n    file: data/bank.csv\n
 shape_st = st.fixed_dictionaries({
     'entry': st.sampled_from(['up_migrate', 'up_migrate', 'init', 'layout']),
     'layout': st.sampled_from(['old', 'new']),
-    'trailing_newline': st.booleans(), 'existing_rules': st.sampled_from([False, False, True]), 'existing_bak': st.booleans(), 'existing_baks': st.sampled_from([[], [], [], ['.bak2'], ['.bak3'], ['.bak2', '.bak3']]), 'existing_tally_dir': st.booleans(),
+    'trailing_newline': st.booleans(), 'existing_rules': st.sampled_from([False, False, True]), 'existing_bak': st.booleans(), 'existing_baks': st.sampled_from([[], [], [], ['.bak2'], ['.bak3'], ['.bak2', '.bak3']]), 'existing_tally_dir': st.sampled_from([False, False, True, True, 'output', 'data']),
     'views': st.booleans(), 'output': st.booleans(), 'notes': st.booleans(),
 })
 
@@ -82,6 +82,18 @@ def build(case, root):
         os.makedirs(os.path.join(root, 'tally'), exist_ok=True)
         with open(os.path.join(root, 'tally', 'README.txt'), 'w') as f:
             f.write('unrelated\n')
+        # ./tally already holds a data/ or output/ directory with a file of the SAME NAME as one about to be moved there (other bytes):
+        # neither copy may be lost
+        if shape['existing_tally_dir'] == 'output':
+            os.makedirs(os.path.join(root, 'tally', 'output'), exist_ok=True)
+            with open(os.path.join(root, 'tally', 'output', 'old.html'), 'w') as f:
+                f.write('<html>an earlier report kept under ./tally</html>')
+        if shape['existing_tally_dir'] == 'data':
+            os.makedirs(os.path.join(root, 'tally', 'data'), exist_ok=True)
+            with open(os.path.join(root, 'data', 'bank.csv'), encoding='utf-8', newline='') as f:
+                same_rows = f.read()
+            with open(os.path.join(root, 'tally', 'data', 'bank.csv'), 'w', encoding='utf-8', newline='') as f:
+                f.write(same_rows.replace('\n', '\r\n'))  # the same transactions, exported with other line endings
 
 
 def snapshot(root):
